@@ -278,7 +278,7 @@ Check C05_ho_simulation :
                             (fst (AD release binop_impl builtin_impl d fr' this' f' args' st')).
 Print Assumptions C05_ho_simulation.
 
-(* The transcribed operators (all but == != .== .!=, finding F52) and the built-ins of biok_inst
+(* The transcribed operators (all but == != .== .!=, finding F53) and the built-ins of biok_inst
    (map filter reduce every some, abs floor ceil trunc sqrt, typeof arity to_bool, ugt ult ugte ulte,
    any all) satisfy that hypothesis, also through the dispatcher with every transcribed built-in. *)
 Theorem C05_impl_rel_respecting_inst : forall nanfix,
@@ -289,7 +289,7 @@ Check C05_impl_rel_respecting_inst : forall nanfix,
 Print Assumptions C05_impl_rel_respecting_inst.
 
 (* C05_full, proved, with its exclusions.  For a function value that is [emit_ok] — closed after
-   capture at every level of nesting; bodies: no == != .== .!= (F52), only built-ins of biok_inst,
+   capture at every level of nesting; bodies: no == != .== .!= (F53), only built-ins of biok_inst,
    no `inputs` / #ref (F9 of C04), no assignment outside do-block statements (F32 of C04), no
    `output`; captured data without NaN and both-quote strings (their literals are operator
    expressions), records with unique keys; captured names are not parameters / inf infinity
@@ -365,7 +365,7 @@ Check C05_inlined_free_vars_conv : forall e m bound x,
   In x (free_vars (subst true m e) bound).
 Print Assumptions C05_inlined_free_vars_conv.
 
-(* F52 (current code): Value::equals on two functions compares parameter lists and body ASTs and
+(* F53 (current code): Value::equals on two functions compares parameter lists and body ASTs and
    ignores captured values.  mk = a => (y => y + a); k1 = mk(1); k2 = mk(2); f = x => k1 == k2:
    f(0) = true, the reloaded emission (x) => ((y) => y + 1) == ((y) => y + 2) gives false. *)
 Lemma C05_function_equality_refuted :
@@ -393,7 +393,7 @@ Qed.
 
 (* kept, not proved: the relation-respecting property for the remaining arms of builtin_full
    (aggregates, list / string / record built-ins, sort_by group_by count_by; `unique` and `includes`
-   apply Value::equals and belong to F52), and NaN / both-quote captured data (their literals are
+   apply Value::equals and belong to F53), and NaN / both-quote captured data (their literals are
    0/0 and a `+` chain: needs the instantiated `/` and `+` inside lit_rel) *)
 Definition C05_all_builtins_rel_full : Prop :=
   forall nanfix,
